@@ -211,6 +211,17 @@ func main() {
 		if st, pan := protect(func() { p.Run(c) }); pan {
 			c.Broken("harness panic outside any guarded call: %s", st)
 		}
+		// end of run: with every option set back to its default, the package state must be the
+		// fresh-process state - whatever the check did in between (a cache, pool or memo table that
+		// a decoder, encoder or query filled is package state that outlives the call)
+		resetOptions()
+		if d := stateDiff(); d != "" {
+			// informational (reported in the evidence): option-like package variables that differ from the
+			// fresh-process state although every option was restored. Behavioural consequences are what the
+			// checks judge (C18 compares behaviour after restoring defaults on every visited state).
+			c.Cap("note: option-like package variables differ from the fresh-process state at the end of the run: " + short(d, 300))
+			c.Count("end_of_run_state_differs", 1)
+		}
 		c.S.Outcomes = int64(len(c.outcomes))
 		c.S.WallS = time.Since(c.start).Seconds()
 		if rt.OrderCapped {
